@@ -28,7 +28,9 @@ RUN_TIMEOUT_S = 300
 RULE = (
     "Fault enumeration: for three fixed base scenarios (plain STFT 4 utterances; STFT + --seed + dither 3 utterances "
     "with prefix ids; SI computer + 2 simulated workers 3 utterances) EVERY traced line event of the tool function and "
-    "of the dataset's __getitem__ is used once as a HARD_KILL point and once as a SOFT_INTERRUPT point, every 5th line "
+    "of the dataset's __getitem__ is used once as a HARD_KILL point and once as a SOFT_INTERRUPT point, every return "
+    "from a C call made by those frames (sys.setprofile c_return: where a signal arriving during print / torch.save is "
+    "delivered) once as a SOFT_INTERRUPT point, every 5th line "
     "event inside torch/serialization.py (every one in the thorough tier) likewise, plus a torn in-flight feature "
     "file at 8 lengths per utterance; each followed by one fault-free re-run. The remaining runs are seeded random "
     "scenarios: 1-8 utterances (ids that are prefixes of one another included), configuration swarm, pre/post-"
@@ -106,7 +108,13 @@ def _fixed(tier):
     out = []
     for bi in range(3):
         base = _base(bi)
-        n_tool, n_deep = _count_points(base)
+        n_tool, n_deep, n_cret = _count_points(base)
+        _POINTS["base%d" % bi] = {"tool": n_tool, "including_torch_serialization": n_deep, "c_call_returns": n_cret}
+        for k in range(0 if os.environ.get("VERIF_C10_NO_CRETURN") else n_cret):  # (development knob)
+            s = copy.deepcopy(base)
+            s["runs"] = [{"fault": {"kind": "SOFT_INTERRUPT", "scope": "creturn", "at": k}}, {"fault": None}]
+            s["enumerated"] = "base%d/creturn/%d" % (bi, k)
+            out.append(s)
         for k in range(n_tool):
             for kind in ("HARD_KILL", "SOFT_INTERRUPT"):
                 s = copy.deepcopy(base)
@@ -145,13 +153,35 @@ def _count_points(base):
                             count_deep=True)
         if r1["exit"] != 0 or r2["exit"] != 0 or r1["points"] is None or r2["points"] is None:
             raise RuntimeError("base scenario does not run cleanly: %r %r" % (r1, r2))
-        return int(r1["points"]), int(r2["points"])
+        return int(r1["points"]), int(r2["points"]), int(r1["cpoints"])
     finally:
         shutil.rmtree(d, ignore_errors=True)
 
 
 def warmup(tier="quick"):
     _fixed(tier)
+
+
+_POINTS = {}
+
+
+def evidence_extra(tier):
+    """What the enumerated part covered (measured: the point counts come from traced runs of the base scenarios)."""
+    fx = _fixed(tier)
+    by = {}
+    for s in fx:
+        b, scope = s["enumerated"].split("/")[0:2]
+        by.setdefault(b, {}).setdefault(scope, 0)
+        by[b][scope] += 1
+    return {
+        "enumerated_scenarios": len(fx),
+        "enumerated_breakdown": by,
+        "enumerated_space": "per base scenario: every traced line event of signals_to_torch_feat_dir and "
+                            "_FeatureProcessorDataset.__getitem__ x {HARD_KILL, SOFT_INTERRUPT}; every %s line event "
+                            "including torch/serialization.py x {HARD_KILL, SOFT_INTERRUPT}; 8 torn lengths per feature "
+                            "file; each followed by one fault-free re-run" % ("5th" if tier == "quick" else "single"),
+        "base_scenario_line_events": dict(_POINTS),
+    }
 
 
 def num_fixed(tier):
@@ -189,7 +219,7 @@ def generate(rng, tier, k):
     if rng.random() < 0.2:
         args["file_prefix"] = rng.choice(("f_", "x"))
     if rng.random() < 0.2:
-        args["file_suffix"] = rng.choice((".feat", ".pt2"))
+        args["file_suffix"] = rng.choice((".feat", ".pt2", ""))
     stale = []
     if rng.random() < 0.2:
         for u in rng.sample(corpus, min(len(corpus), rng.randrange(1, 3))):
@@ -209,6 +239,8 @@ def generate(rng, tier, k):
             f = {"kind": kind, "scope": "tool", "anchor": "getitem", "occurrence": occ, "offset": rng.randrange(0, 25)}
         elif r < 0.8:
             f = {"kind": "HARD_KILL", "scope": "tool", "anchor": "save_begin", "occurrence": occ, "offset": 0}
+        elif r < 0.9 and not os.environ.get("VERIF_C10_NO_CRETURN"):
+            f = {"kind": "SOFT_INTERRUPT", "scope": "creturn", "at": rng.randrange(0, 80 + 12 * nutt)}
         else:
             f = {"kind": kind, "scope": "tool", "at": rng.randrange(0, 60 + 30 * nutt)}
         run = {"fault": f, "ambient": rng.randrange(1 << 20)}
@@ -247,7 +279,7 @@ def _prepare(scn, d, outname, with_manifest, num_workers=None, syntax="inline"):
         argv.append("--channel=%d" % a["channel"])
     if a.get("file_prefix"):
         argv.append("--file-prefix=" + a["file_prefix"])
-    if a.get("file_suffix"):
+    if a.get("file_suffix") is not None:
         argv.append("--file-suffix=" + a["file_suffix"])
     W = a.get("num_workers", 0) if num_workers is None else num_workers
     argv.append("--num-workers=%d" % W)
